@@ -1,5 +1,6 @@
 """C20: netlink link-info codec of pkg/candevice/device_linux.go. DESIGN.md 5.20."""
 import vlib
+from checks import translate_tie
 
 PROPERTIES = {
     "C20": {
@@ -38,6 +39,11 @@ RULE = ("per structure field: 0/1/max/one-hot/one-cold/random words with the oth
         "distinct by line hash")
 
 
+translate_tie.describe(PROPERTIES, "C20", "(here: the ten marshalBinary/unmarshalBinary methods of ifInfoMsg, BitTiming, BitTimingConst, "
+                       "Clock, CtrlMode, BusErrorCounters and Stats in device_linux.go, = Netlink/Layout.v)",
+                       translate_tie.TIE_NOTE_INT, translate_tie.TIE_NOTE_SLICE)
+
+
 def run(res, replay=None):
     if replay:
         # a replay names the harness invocation (seed, tier) that produced the observation: re-run exactly that
@@ -46,6 +52,7 @@ def run(res, replay=None):
         res.seed = int(rp.get("seed", res.seed))
         res.tier = rp.get("tier", res.tier)
     vlib.proof_stage(res)
+    translate_tie.run_tie(res, ["netlink"])
     scale = 1 if res.tier == "quick" else 50
     vlib.standard_run(
         res, "netlink", [res.seed, scale], "netlink", RULE,
